@@ -1,11 +1,17 @@
 import Driver.Common
-import Log4rsModel.Console.Spec
+import Log4rsModel.Console.SpecFormatted
+import Log4rsModel.Base.Level
 /-
 C18 driver. Three kinds of cases (fields after the property id):
   style    <text> <background> <intense>                 `-` | 0..7 ; `-` | 0 | 1
            observation: hex bytes written by `AnsiWriter::set_style`, or PANIC
-  hl       <ansi|simple> <level 1..5> <tokens>           tokens: `,`-joined  H (open group) E (close)
-           T<hex> (literal text) L (the level name)
+  hl       <ansi|simple> <level 1..5> <tokens>           message `msg`
+  hlf      <ansi|simple> <level 1..5> <message> <tokens> message = protocol string
+           tokens, `,`-joined:  H  or  H/<fill>/<l|r>/<min>/<max>   open `{h(` … with these parameters
+                                G/<fill>/<l|r>/<min>/<max>          open `{(`  (plain group)
+                                E                                   close the innermost group
+                                T<hex of UTF-8>  literal text,  L  `{l}`,  M  `{m}`
+           <fill> = hex scalar value or `-` (space); <min>/<max> = decimal or `-`
            observation: hex bytes of `PatternEncoder::encode` into the writer, or PANIC / ERR
   console  <NO_COLOR> <CLICOLOR> <CLICOLOR_FORCE> <tty stdout?> <tty stderr?> <stdout|stderr> <tty_only>
            env values `-` (unset) | 0 | 1
@@ -27,52 +33,122 @@ def decEnvVal (s : String) : Option EnvVal :=
 def decTarget (s : String) : Option Target :=
   if s = "stdout" then some .stdout else if s = "stderr" then some .stderr else none
 
-def asciiBytes (s : String) : Bytes := s.toList.map Char.toNat
+def asciiBytes (s : String) : (List Nat) := s.toList.map Char.toNat
 
-def levelBytes : Nat → Bytes
+def levelBytes : Nat → (List Nat)
   | 1 => asciiBytes "ERROR" | 2 => asciiBytes "WARN" | 3 => asciiBytes "INFO"
   | 4 => asciiBytes "DEBUG" | 5 => asciiBytes "TRACE" | _ => []
 
+def decParams (parts : List String) : Option Log4rs.Pattern.Params :=
+  match parts with
+  | [fill, al, mn, mx] =>
+    let fill? : Option Char :=
+      if fill = "-" then some ' ' else
+      match hexNat? fill with
+      | some n => if h : n.isValidChar then some (Char.ofNatAux n h) else none
+      | none => none
+    let right? : Option Bool := if al = "r" then some true else if al = "l" then some false else none
+    match fill?, right?, decOpt decNat mn, decOpt decNat mx with
+    | some f, some r, some mn, some mx => some { fill := f, right := r, minW := mn, maxW := mx }
+    | _, _, _, _ => none
+  | _ => none
+
+/-- `H`, `H/…`, `G/…` → (is highlight?, parameters) -/
+def decOpen (tok : String) : Option (Bool × Log4rs.Pattern.Params) :=
+  match splitOnChar '/' tok with
+  | ["H"] => some (true, {})
+  | "H" :: rest => (decParams rest).map fun p => (true, p)
+  | "G" :: rest => (decParams rest).map fun p => (false, p)
+  | _ => none
+
 /-- token list → chunk list; returns the unconsumed tokens (an `E` is left for the caller) -/
-def parseChunks (level : Nat) : Nat → List String → Option (Chunks × List String)
+def parseChunks (level : Nat) (msg : List Char) : Nat → List String → Option (FChunks × List String)
   | 0, _ => none
   | _, [] => some (.nil, [])
   | fuel + 1, tok :: rest =>
     if tok = "E" then some (.nil, tok :: rest)
-    else if tok = "H" then
-      match parseChunks level fuel rest with
-      | some (inner, "E" :: rest') =>
-        match parseChunks level fuel rest' with
-        | some (r, rest'') => some (.highlight inner r, rest'')
-        | none => none
-      | _ => none
     else if tok = "L" then
-      match parseChunks level fuel rest with
-      | some (r, rest') => some (.text (levelBytes level) r, rest')
+      match parseChunks level msg fuel rest with
+      | some (r, rest') => some (.text (levelName level).toList r, rest')
+      | none => none
+    else if tok = "M" then
+      match parseChunks level msg fuel rest with
+      | some (r, rest') => some (.text msg r, rest')
       | none => none
     else if tok.startsWith "T" then
-      match decBytes (tok.drop 1).toString, parseChunks level fuel rest with
-      | some bs, some (r, rest') => some (.text bs r, rest')
+      match (decBytes (tok.drop 1).toString).bind decodeUtf8, parseChunks level msg fuel rest with
+      | some cs, some (r, rest') => some (.text cs r, rest')
       | _, _ => none
-    else none
+    else
+      match decOpen tok with
+      | none => none
+      | some (isH, p) =>
+        match parseChunks level msg fuel rest with
+        | some (inner, "E" :: rest') =>
+          match parseChunks level msg fuel rest' with
+          | some (r, rest'') => some (if isH then .highlight p inner r else .group p inner r, rest'')
+          | none => none
+        | _ => none
 
-def decChunks (level : Nat) (s : String) : Option Chunks :=
+def decChunks (level : Nat) (msg : List Char) (s : String) : Option FChunks :=
   let toks := decList ',' s
-  match parseChunks level (2 * toks.length + 2) toks with
+  match parseChunks level msg (2 * toks.length + 2) toks with
   | some (cs, []) => some cs
   | _ => none
 
-def depth : Chunks → Nat
+/-- nesting depth of highlight groups -/
+def depth : FChunks → Nat
   | .nil => 0
   | .text _ rest => depth rest
-  | .highlight inner rest => max (depth inner + 1) (depth rest)
+  | .highlight _ inner rest => max (depth inner + 1) (depth rest)
+  | .group _ inner rest => max (depth inner) (depth rest)
 
-def renderOutcome : Outcome Unit Bytes → String
+/-- nesting depth of all groups -/
+def groupDepth : FChunks → Nat
+  | .nil => 0
+  | .text _ rest => groupDepth rest
+  | .highlight _ inner rest => max (groupDepth inner + 1) (groupDepth rest)
+  | .group _ inner rest => max (groupDepth inner + 1) (groupDepth rest)
+
+structure FmtFacts where
+  cut : Bool := false          -- some max width actually swallowed characters
+  cutAll : Bool := false       -- … a group with content was cut to zero characters
+  maxZero : Bool := false
+  right : Bool := false
+  minGtMax : Bool := false
+  padded : Bool := false
+  onHighlight : Bool := false  -- a highlight group itself carries a width
+  aroundHighlight : Bool := false  -- a width-carrying group contains a highlight group
+
+def FmtFacts.or (a b : FmtFacts) : FmtFacts :=
+  { cut := a.cut || b.cut, cutAll := a.cutAll || b.cutAll, maxZero := a.maxZero || b.maxZero,
+    right := a.right || b.right, minGtMax := a.minGtMax || b.minGtMax, padded := a.padded || b.padded,
+    onHighlight := a.onHighlight || b.onHighlight, aroundHighlight := a.aroundHighlight || b.aroundHighlight }
+
+def nodeFacts (level : Nat) (isH : Bool) (p : Log4rs.Pattern.Params) (inner : FChunks) : FmtFacts :=
+  let n := (Log4rs.Pattern.Out.text (opsOf level inner)).length
+  let has := p.minW.isSome || p.maxW.isSome
+  { cut := match p.maxW with | some M => decide (M < max n (p.minW.getD 0)) | none => false
+    cutAll := match p.maxW with | some M => M == 0 && decide (0 < n) | none => false
+    maxZero := p.maxW == some 0
+    right := p.right && p.minW.isSome
+    minGtMax := match p.minW, p.maxW with | some m, some M => decide (M < m) | _, _ => false
+    padded := match p.minW with | some m => decide (n < m) | none => false
+    onHighlight := isH && has
+    aroundHighlight := has && decide (0 < depth inner) }
+
+def factsOf (level : Nat) : FChunks → FmtFacts
+  | .nil => {}
+  | .text _ rest => factsOf level rest
+  | .highlight p inner rest => ((nodeFacts level true p inner).or (factsOf level inner)).or (factsOf level rest)
+  | .group p inner rest => ((nodeFacts level false p inner).or (factsOf level inner)).or (factsOf level rest)
+
+def renderOutcome : Outcome Unit (List Nat) → String
   | .ok bs => encBytes bs
   | .err _ => "ERR"
   | .panic _ => "PANIC"
 
-def decObsBytes (s : String) : Option (Option Bytes) :=
+def decObsBytes (s : String) : Option (Option (List Nat)) :=
   if s = "PANIC" then some none else (decBytes s).map some
 
 /-- the pattern of the child process, `{h({l} {m})}{n}` with the message `msg` -/
@@ -84,7 +160,7 @@ def childLevels : List Nat := [1, 2, 3, 4, 5]
 def stripPrefix? (p s : String) : Option String :=
   if s.startsWith p then some (s.drop p.length).toString else none
 
-def decConsoleObs (s : String) : Option (Nat × Bytes × Bytes) :=
+def decConsoleObs (s : String) : Option (Nat × (List Nat) × (List Nat)) :=
   match splitOnChar ' ' s with
   | [a, b, c] =>
     match stripPrefix? "rc=" a, stripPrefix? "out=" b, stripPrefix? "err=" c with
@@ -105,26 +181,37 @@ def handleStyle (t b i implObs : String) : Answer :=
       tags := ["style", "attrs-" ++ toString n] ++ (if overflowClass s then ["f1-overflow-class"] else []) }
   | _, _, _, _ => badCase "style"
 
-def handleHl (w lvl toks implObs : String) : Answer :=
+def handleHl (w lvl : String) (msg : List Char) (toks implObs : String) : Answer :=
   let kind? : Option WriterKind := if w = "ansi" then some .tty else if w = "simple" then some .raw else none
   match kind?, decNat lvl with
   | some kind, some level =>
     if level < 1 ∨ 5 < level then badCase "level" else
-    match decChunks level toks with
+    match decChunks level msg toks with
     | none => badCase "tokens"
-    | some cs =>
+    | some f =>
       let spec :=
         if implObs = "PANIC" then Verdict.fail "the encoder panicked" "C18/hl-panic"
         else if implObs = "ERR" then Verdict.fail "the encoder failed" "C18/hl-error"
         else match decBytes implObs with
           | none => Verdict.fail "unreadable observation" "C18/hl-observation"
-          | some bs => streamVerdict kind.isTty [level] (fun _ => cs) bs "C18/hl-"
-      let d := depth cs
-      { model := renderOutcome (encodeChunks kind level cs)
+          | some bs =>
+            match formattedVerdict kind.isTty level f bs with
+            | .ok =>
+              -- without width parameters the text is specified here as well (token-exact)
+              if f.unformatted then streamVerdict kind.isTty [level] (fun _ => f.erase) bs "C18/hl-" else .ok
+            | v => v
+      let d := depth f
+      let ff := factsOf level f
+      let flag (b : Bool) (t : String) : List String := if b then [t] else []
+      { model := renderOutcome (encodeFormatted kind level f)
         spec := spec.render
         tags := ["hl", w, "level-" ++ toString level, "depth-" ++ toString (min d 4)]
-          ++ (if d = 0 then ["trivial"] else [])
-          ++ (if d ≥ 2 then ["nested"] else []) }
+          ++ flag (d = 0) "trivial" ++ flag (d ≥ 2) "nested"
+          ++ flag (!f.unformatted) "fmt" ++ flag ff.onHighlight "fmt-on-highlight"
+          ++ flag ff.aroundHighlight "fmt-around-highlight" ++ flag ff.cut "cut"
+          ++ flag ff.cutAll "cut-to-zero" ++ flag ff.maxZero "maxw-0" ++ flag ff.right "right-align"
+          ++ flag ff.padded "padded" ++ flag ff.minGtMax "min-gt-max"
+          ++ flag (!f.unformatted) ("group-depth-" ++ toString (min (groupDepth f) 4)) }
   | _, _ => badCase "hl"
 
 def handleConsole (nc cc cf to te tg tonly implObs : String) : Answer :=
@@ -153,7 +240,11 @@ def handleConsole (nc cc cf to te tg tonly implObs : String) : Answer :=
 def handle : Handler := fun cas obs =>
   match cas, obs with
   | ["style", t, b, i], [o] => handleStyle t b i o
-  | ["hl", w, lvl, toks], [o] => handleHl w lvl toks o
+  | ["hl", w, lvl, toks], [o] => handleHl w lvl "msg".toList toks o
+  | ["hlf", w, lvl, msg, toks], [o] =>
+    match decStr msg with
+    | some m => handleHl w lvl m toks o
+    | none => badCase "message"
   | ["console", nc, cc, cf, to, te, tg, tonly], [o] => handleConsole nc cc cf to te tg tonly o
   | _, _ => badCase "arity"
 
